@@ -280,6 +280,28 @@ def main(engine, prop, argv):
         print(f"code under test: {os.path.dirname(os.path.abspath(func_adl_xAOD.__file__))}")
         if a.replay:
             return replay(engine, prop, a.replay)
+        reported = set()
+        if not a.fingerprints:
+            # every recorded (open) finding of this property is re-observed first, from its recorded history: as long as it
+            # still reproduces on this tree its KNOWN-FINDING line is printed in every run, whether or not the seeded
+            # search happens to meet it again; once it no longer reproduces nothing is printed for it
+            for kf in load_known().get("findings", []):
+                if kf["property"] != prop or not kf.get("replay"):
+                    continue
+                rp = os.path.join(VERIF, kf["replay"])
+                try:
+                    with open(rp) as f:
+                        doc = json.load(f)
+                    res = exec_case_isolated(engine, doc["case"])
+                    sigs = {engine.signature(doc["case"], v) for v in res["violations"] if v["property"] == prop}
+                except (OSError, ValueError, KeyError, HarnessError) as e:
+                    print(f"note: recorded finding {kf['signature']} could not be re-observed from {kf['replay']}: {e}")
+                    continue
+                if kf["signature"] in sigs:
+                    print(f"KNOWN-FINDING: property={prop} {kf['what']} [signature={kf['signature']}] replay={rp}")
+                    reported.add(kf["signature"])
+                else:
+                    print(f"note: recorded finding {kf['signature']} does not reproduce on this tree any more ({kf['replay']})")
         planned = engine.plan(prop, a.tier, a.seed)
         n_items = planned if a.runs is None else min(a.runs, planned) if a.fingerprints else a.runs
         wall_cap = a.wall_cap if a.wall_cap is not None else engine.PROPERTIES[prop]["wall_cap"][a.tier]
@@ -294,7 +316,6 @@ def main(engine, prop, argv):
         rc = 0
         n_viol = 0
         known = load_known()
-        reported = set()
         if agg.violating:
             agg.violating.sort(key=lambda r: r["i"])
             # one representative per raw signature
